@@ -177,7 +177,9 @@ Cand(cls, par) ==
     [] cls \in {"MonotoneOperator", "StronglyMonotoneOperator", "LipschitzStronglyMonotoneOperator"} ->
          LET l == IF Has(L) THEN L ELSE One IN
          <<Mem("linz", mu, Z, l), Mem("linz", mu, Z, GHalf(l)), Mem("linz", GMul(R(3, 5), l), Z, GMul(R(4, 5), l)), Mem("linz", l, Z, Z),
-           Mem("linz", mu, Z, Z), Mem("linz", mu, One, l), Mem("linz", mu, Z, GMul(Two, l)), Mem("linz", GMul(R(4, 5), l), Z, GMul(R(3, 5), l))>>
+           Mem("linz", mu, Z, Z), Mem("linz", mu, One, l), Mem("linz", mu, Z, GMul(Two, l)), Mem("linz", GMul(R(4, 5), l), Z, GMul(R(3, 5), l)),
+           \* rotations in the other direction (two operators of one method may turn against each other)
+           Mem("linz", mu, Z, GNeg(l)), Mem("linz", mu, Z, GNeg(GMul(Two, l)))>>
     [] cls = "CocoerciveOperator" ->
          LET ib == GDiv(One, PBeta(par)) IN
          <<Mem("linz", ib, Z, Z), Mem("linz", GHalf(ib), Z, GHalf(ib)), Mem("linz", GHalf(ib), Z, Z), Mem("linz", Z, Z, Z)>>
